@@ -1068,7 +1068,7 @@ pub fn run(r: &Run) {
     // the records BmpClient::serve writes for real sessions (shared with C18): per-peer headers, Peer Up OPENs and
     // the Add-Path setting of each record are the daemon's, not generated
     r.assume(crate::props::c18e::RULE);
-    r.prop("bmp-station", r.tier.pick(1_500, 50_000), || crate::props::c18e::arb_case(r.tier.pick(16, 28)), crate::props::c18e::check);
+    r.slow(|| r.prop("bmp-station", r.tier.pick(1_500, 50_000), || crate::props::c18e::arb_case(r.tier.pick(16, 28)), crate::props::c18e::check));
 }
 
 pub fn replay(sub: &str, case: &Value) -> Result<CheckResult, String> {
